@@ -995,7 +995,7 @@ structure Durs where
   dflt : Dur := .absent
   deriving DecidableEq, Repr
 
-/-- `authority.ValidateDurations`, `true` = accepted. `cmpFixed = false` is the code as it stands:
+/-- `authority.ValidateDurations`, `true` = accepted. `cmpFixed = false` is the code before e2d04ab:
     its last comparison, announced as "default duration cannot be greater than max duration",
     compares min with default once more (notes/C16.md). -/
 def validateDurations (cmpFixed : Bool) (d : Durs) : Bool :=
@@ -1004,6 +1004,9 @@ def validateDurations (cmpFixed : Bool) (d : Durs) : Bool :=
   !(d.min.present && d.dflt.present && decide (d.min.value > d.dflt.value)) &&
   !(d.dflt.present && d.max.present &&
       (if cmpFixed then decide (d.dflt.value > d.max.value) else decide (d.min.value > d.dflt.value)))
+
+/-- the comparison as it stands in /repo: since e2d04ab the third test is default > max -/
+def durCmpFixed : Bool := true
 
 /-- `authority.ValidateClaims`: the durations blocks that are present (X.509, SSH user, SSH host) -/
 def validateClaims (cmpFixed : Bool) (blocks : List Durs) : Bool := blocks.all (validateDurations cmpFixed)
